@@ -156,12 +156,27 @@ def audit_axioms(prop, module, theorems, log):
 
 # ------------------------------------------------------------------------- correspondence
 
+CASE_TIMEOUT = int(os.environ.get("VERIF_CASE_TIMEOUT", "90"))
+
+
 def _run_chunk(args):
     idx, lines = args
     if not lines:
         return []
     inp = "\n".join(lines) + "\n"
-    p1 = subprocess.run([HARNESS, "eval"], input=inp, stdout=subprocess.PIPE, stderr=subprocess.PIPE, text=True)
+    # a case that does not come back is a finding, not a reason to hang the check: the chunk gets a
+    # deadline, and a chunk that misses it is bisected down to the single request
+    deadline = CASE_TIMEOUT if len(lines) == 1 else max(4 * CASE_TIMEOUT, 3 * len(lines))
+    try:
+        p1 = subprocess.run([HARNESS, "eval"], input=inp, stdout=subprocess.PIPE, stderr=subprocess.PIPE, text=True,
+                            timeout=deadline)
+    except subprocess.TimeoutExpired:
+        if len(lines) == 1:
+            fam, payload = (lines[0].split("\t") + [""])[:2]
+            return [(fam, payload, f"TIMEOUT {deadline}s", "?",
+                     f"FAIL C03-no-answer-within:{deadline}s ;; C01-no-answer-within:{deadline}s")]
+        mid = len(lines) // 2
+        return _run_chunk((idx, lines[:mid])) + _run_chunk((idx, lines[mid:]))
     impl_lines = [l for l in p1.stdout.split("\n") if l]
     if p1.returncode != 0 or len(impl_lines) != len(lines):
         # the harness died (abort / stack overflow): bisect to attribute
